@@ -764,7 +764,14 @@ where
                 history: None,
                 index: 0,
             },
-            Some(_) => Record::constant(T::zero()) - self,
+            // As with a constant (and with negating a RecordTensor or RecordMatrix) the number
+            // is negated directly, so that for floating point types -(0.0) is -0.0 rather than
+            // the 0.0 which 0.0 - 0.0 would give.
+            Some(history) => Record {
+                number: -self.number.clone(),
+                history: Some(history),
+                index: history.append_unary(self.index, -T::one()),
+            },
         }
     }
 }
@@ -785,7 +792,11 @@ where
                 history: None,
                 index: 0,
             },
-            Some(_) => Record::constant(T::zero()) - self,
+            Some(history) => Record {
+                number: -self.number,
+                history: Some(history),
+                index: history.append_unary(self.index, -T::one()),
+            },
         }
     }
 }
